@@ -286,6 +286,37 @@ def plumbing(chk):
         okk = len(names) == 3 and a[:2] == names[:2] and kwk.get('weights') == names[2]
     chk.check(okk, 'C07-P5', TSC, 'tsc_parallel', 'kernel receives (partitioned, starts, weights) of the same partition call', '',
               'the kernel is not given the partitioned particles with their own stripe table and weights', node=fn, nontrivial=False)
+    # the stripe a particle is filed under is computed from the coordinate that is painted: the periodic wrap comes before the
+    # partition, on the partition's input, and nothing touches the partitioned arrays between the partition and the kernel
+    def top_index(node):
+        for i_, st_ in enumerate(fn.body):
+            if any(x is node for x in ast.walk(st_)):
+                return i_
+        return -1
+    wraps = [n for n in walk_no_nested(fn) if isinstance(n, ast.Call) and dotted(n.func) == '_wrap_inplace']
+    ip = top_index(calls[0]) if calls else -1
+    ik = top_index(kcall[0]) if kcall else -1
+    part_in = unparse(calls[0].args[0]) if calls and calls[0].args else None
+    okw = bool(wraps) and all(w.args and unparse(w.args[0]) == part_in and top_index(w) < ip for w in wraps)
+    touched = []
+    if asg and isinstance(asg[0].targets[0], ast.Tuple):
+        outs = {unparse(e) for e in asg[0].targets[0].elts}
+        for st_ in fn.body[ip + 1:ik]:
+            for x in ast.walk(st_):
+                if isinstance(x, ast.Call) and dotted(x.func) not in ('print', 'len', 'timeit.default_timer') and any(isinstance(a, ast.Name) and a.id in outs for a in x.args):
+                    touched.append(x)
+                if isinstance(x, (ast.Subscript, ast.Name)) and isinstance(getattr(x, 'ctx', None), ast.Store):
+                    b_ = x
+                    while isinstance(b_, ast.Subscript):
+                        b_ = b_.value
+                    if isinstance(b_, ast.Name) and b_.id in outs:
+                        touched.append(x)
+    chk.check(okw and not touched, 'C07-P5', TSC, 'tsc_parallel', 'periodic wrap precedes the partition, on its input; the partitioned arrays reach the kernel untouched',
+              f'{len(wraps)} wrap call(s) on {part_in}',
+              (f'wrap call(s) {[unparse(w)[:40] for w in wraps]} at statement {[top_index(w) for w in wraps]}, partition of {part_in} at statement {ip}' if not okw else
+               f'{unparse(touched[0])[:60] if touched else ""} modifies the partitioned particles before the kernel') +
+              ': a particle is filed under the stripe of its unwrapped coordinate but painted at the wrapped one, so two stripes of one sweep can write the same cells',
+              node=(wraps[0] if wraps and not okw else (touched[0] if touched else fn)), nontrivial=False)
     # P6
     pp = src.func(TSC, 'partition_parallel')
     keyst = [n for n in walk_no_nested(pp) if isinstance(n, ast.Assign) and isinstance(n.targets[0], ast.Subscript)
